@@ -464,6 +464,19 @@ func (r *c04Run) sweep(ctx context.Context, tag string) (class, msg string) {
 	return "", ""
 }
 
+// unpinRemoved: the removal of a packed blob is recorded in the meta index
+// only (blobpacked's RemoveBlobs comment: the zip stays in large), so a
+// recovery that rebuilds the index from the zips brings the blob back. That is
+// the documented behaviour, not demanded to be otherwise: blobs removed
+// earlier in the history may be present or absent after such a recovery.
+func (r *c04Run) unpinRemoved() {
+	for ref := range r.removed {
+		if r.s.model.State[ref] == sim.Absent {
+			r.s.model.State[ref] = sim.Maybe
+		}
+	}
+}
+
 // release drops the sub-run's stored bytes (zombie goroutines of crashed
 // generations keep the wrappers alive otherwise).
 func (r *c04Run) release() {
@@ -562,6 +575,9 @@ func execC04(rc *harness.RunCtx, p *harness.Plan, cfg *Config) *harness.Outcome 
 					if c.Mut {
 						mutCalls[i]++
 					}
+					if os.Getenv("VERIF_C04_TRACE") != "" {
+						fmt.Fprintf(os.Stderr, "c04trace op=%d %+v\n", i, c)
+					}
 				}
 				if s.crashed(env) {
 					s.sawCrash = false
@@ -573,6 +589,9 @@ func execC04(rc *harness.RunCtx, p *harness.Plan, cfg *Config) *harness.Outcome 
 					if msg := r.restart(afterMode, false, false); msg != "" {
 						return mk(i, "recover-failed", msg, where), nil, ""
 					}
+					if afterMode == "fast" || afterMode == "full" {
+						r.unpinRemoved()
+					}
 					if cl, msg := r.sweep(ctx, "after-crash"); cl != "" {
 						return mk(i, cl, msg, where), nil, ""
 					}
@@ -580,6 +599,7 @@ func execC04(rc *harness.RunCtx, p *harness.Plan, cfg *Config) *harness.Outcome 
 					if msg := r.restart("full", true, true); msg != "" {
 						return mk(i, "recover-failed", "full recovery from the zips alone: "+msg, where), nil, ""
 					}
+					r.unpinRemoved()
 					if cl, msg := r.sweep(ctx, "after-crash-full-recovery"); cl != "" {
 						return mk(i, cl, msg, where), nil, ""
 					}
@@ -637,11 +657,7 @@ func execC04(rc *harness.RunCtx, p *harness.Plan, cfg *Config) *harness.Outcome 
 				if op.Mode == "full" || op.Mode == "fast" {
 					// documented: removals of packed blobs live only in meta; a
 					// recovery from the zips brings them back. Not demanded.
-					for ref := range r.removed {
-						if s.model.State[ref] == sim.Absent {
-							s.model.State[ref] = sim.Maybe
-						}
-					}
+					r.unpinRemoved()
 				}
 				if op.Wipe && op.Mode == "none" {
 					// meta lost and not rebuilt: packed blobs are legitimately
@@ -649,11 +665,7 @@ func execC04(rc *harness.RunCtx, p *harness.Plan, cfg *Config) *harness.Outcome 
 					if msg := r.restart("fast", false, true); msg != "" {
 						return mk(i, "recover-failed", msg, ""), nil, ""
 					}
-					for ref := range r.removed {
-						if s.model.State[ref] == sim.Absent {
-							s.model.State[ref] = sim.Maybe
-						}
-					}
+					r.unpinRemoved()
 				}
 				if cl, msg := r.sweep(ctx, "after-restart-"+op.Mode); cl != "" {
 					return mk(i, cl, msg, ""), nil, ""
@@ -673,11 +685,7 @@ func execC04(rc *harness.RunCtx, p *harness.Plan, cfg *Config) *harness.Outcome 
 			if msg := r.restart(mode, false, true); msg != "" {
 				return mkEnd("recover-failed", msg), nil, ""
 			}
-			for ref := range r.removed {
-				if s.model.State[ref] == sim.Absent {
-					s.model.State[ref] = sim.Maybe
-				}
-			}
+			r.unpinRemoved()
 			if cl, msg := r.sweep(ctx, "end-after-crash"); cl != "" {
 				return mkEnd(cl, msg), nil, ""
 			}
